@@ -1,0 +1,23 @@
+//go:build verif
+
+// Contracts for package util: the bolt wrappers (read by /verif/gocv; comment-only effect with the
+// verif tag off). The wrappers only forward to go.etcd.io/bbolt: their contracts are trusted.
+
+package util
+
+// a bolt transaction is open from Begin until Commit or Rollback; openTx counts the open ones
+//@ ghostvar openTx int
+//@ ghostfield bbolt.Tx.open bool
+
+//@ func RootBoltImpl.Begin
+//@   props C12 C13
+//@   mode int
+//@   trusted forwards to bbolt.DB.Begin
+//@   requires r != nil
+//@   modifies openTx
+//@   ensures implies(result1 == nil, result0 != nil && fresh(result0) && result0.Tx != nil && fresh(result0.Tx) && result0.Tx.open && openTx == old(openTx) + 1) && implies(result1 != nil, openTx == old(openTx))
+//@ func BoltTxImpl.Bucket
+//@   props C12 C13
+//@   mode int
+//@   trusted forwards to bbolt.Tx.Bucket
+//@   requires tx != nil && tx.Tx != nil && tx.Tx.open
